@@ -2,6 +2,7 @@ package eng
 
 import (
 	"fmt"
+	"os"
 	"go/types"
 	"sort"
 	"strings"
@@ -194,18 +195,21 @@ func (e *Engine) VerifyFunc(key string) (res *FuncResult) {
 	c := e.C
 	spec := e.Specs[key]
 	res = &FuncResult{Key: key, Spec: spec}
+	if spec == nil {
+		res.Err = "no contract"
+		return
+	}
+	if spec.IsLemma {
+		return e.verifyLemma(key, spec)
+	}
 	fn := e.P.Funcs[key]
 	if fn == nil {
 		res.Err = "function not found in the loaded program"
 		return
 	}
-	if spec == nil {
-		res.Err = "no contract"
-		return
-	}
 	rc := &rootCtx{fn: fn, key: key, spec: spec, nameCnt: map[string]int{}, abstracted: map[string]bool{}, params: map[string]SVal{}}
 	e.cur = rc
-	e.nextRgn = 0
+	e.setRgn(0)
 	defer func() {
 		res.Obligs = rc.obligs
 		res.Paths = rc.paths + 1
@@ -217,7 +221,10 @@ func (e *Engine) VerifyFunc(key string) (res *FuncResult) {
 				res.Err = u.Msg
 				return
 			}
-			panic(r)
+			if os.Getenv("DGV_PANIC") != "" {
+				panic(r)
+			}
+			res.Err = fmt.Sprintf("engine panic: %v", r)
 		}
 	}()
 	st := &State{heap: c.InitialHeap("0")}
@@ -260,7 +267,7 @@ func (e *Engine) VerifyFunc(key string) (res *FuncResult) {
 	if spec.Trusted {
 		return
 	}
-	e.runFunc(fn, args, st, nil, "", func(st2 *State, rets []Value) {
+	onRet := func(st2 *State, rets []Value) {
 		rc.returns++
 		post := e.specEnvFor(fn, spec, args, rets, &st2.heap, &rc.entry.heap, false)
 		fr := &frame{fn: fn}
@@ -279,7 +286,46 @@ func (e *Engine) VerifyFunc(key string) (res *FuncResult) {
 				e.obligeNoAssume(st2, fr, "post", nt.name, nt.t)
 			}
 		}
-	})
+	}
+	// case splits: one run of the body per combination of case values
+	var runCases func(i int, st *State)
+	runCases = func(i int, st *State) {
+		if i == len(spec.Cases) {
+			e.runFunc(fn, args, st.clone(), nil, "", onRet)
+			return
+		}
+		cs := spec.Cases[i]
+		if cs.Bool {
+			b := env.boolTerm(env.eval(cs.Cl.Expr))
+			for _, pol := range []bool{true, false} {
+				s2 := st.clone()
+				if pol {
+					s2.assume(b)
+				} else {
+					s2.assume(c.Not(b))
+				}
+				s2.path = append(s2.path, fmt.Sprintf("case %s=%v", cs.Cl.Text, pol))
+				runCases(i+1, s2)
+			}
+			return
+		}
+		v := env.asInt64(env.toType(env.eval(cs.Cl.Expr), types.Typ[types.Int]))
+		var outside []*Term
+		for k := cs.Lo; k <= cs.Hi; k++ {
+			s2 := st.clone()
+			eq := c.Eq(v, c.Const(64, uint64(k)))
+			s2.assume(eq)
+			s2.path = append(s2.path, fmt.Sprintf("case %s=%d", cs.Cl.Text, k))
+			outside = append(outside, c.Not(eq))
+			runCases(i+1, s2)
+		}
+		s2 := st.clone()
+		s2.assume(c.And(outside...))
+		s2.path = append(s2.path, fmt.Sprintf("case %s=other", cs.Cl.Text))
+		runCases(i+1, s2)
+	}
+	env.assume = false
+	runCases(0, st)
 	if rc.returns == 0 {
 		// a function none of whose paths returns would make every post-condition vacuous
 		rc.obligs = append(rc.obligs, &Oblig{ID: ShortKey(key) + "#cover:ret", Kind: "cover", Fn: key, Goal: c.False(), Cover: true,
@@ -334,9 +380,9 @@ func (e *Engine) assumeGlobals(st *State) {
 		t := g.Type().Underlying().(*types.Pointer).Elem()
 		switch t.Underlying().(type) {
 		case *types.Interface:
-			st.assume(c.Ne(c.loadCell(&st.heap, KIT, p, 0), c.Const(32, 0)))
+			st.assume(c.Ne(c.loadCell(&st.heap, KIT, p, 0), c.Const(TypW, 0)))
 		case *types.Pointer:
-			st.assume(c.Ne(c.loadCell(&st.heap, KPR, p, 0), c.Const(32, 0)))
+			st.assume(c.Ne(c.loadCell(&st.heap, KPR, p, 0), c.Const(RgnW, 0)))
 		}
 	}
 	names = names[:0]
@@ -469,4 +515,60 @@ func (e *Engine) assumeFrozenContents(st *State, g *ssa.Global) {
 		cell := c.Select(c.Select(st.heap.K[k], rg), c.Const(64, uint64(int64(i)*es)))
 		st.assume(c.Eq(cell, c.Const(w, v)))
 	}
+}
+
+// verifyLemma proves a lemma: parameters arbitrary, requires assumed, ensures proved, over an
+// arbitrary heap.
+func (e *Engine) verifyLemma(key string, spec *FuncSpec) (res *FuncResult) {
+	c := e.C
+	res = &FuncResult{Key: key, Spec: spec}
+	rc := &rootCtx{key: key, spec: spec, nameCnt: map[string]int{}, abstracted: map[string]bool{}, params: map[string]SVal{}}
+	e.cur = rc
+	e.setRgn(0)
+	defer func() {
+		res.Obligs = rc.obligs
+		res.Paths = 1
+		res.Returns = 1
+		res.Trivial = rc.trivial
+		if r := recover(); r != nil {
+			if u, ok := r.(Unsupported); ok {
+				res.Err = u.Msg
+				return
+			}
+			if os.Getenv("DGV_PANIC") != "" {
+				panic(r)
+			}
+			res.Err = fmt.Sprintf("engine panic: %v", r)
+		}
+	}()
+	st := &State{heap: c.InitialHeap("0")}
+	env := &specEnv{e: e, heap: &st.heap, old: &st.heap, vars: map[string]SVal{}, bound: map[string]*Term{}, rc: rc}
+	if p, ok := e.P.All[spec.PkgPath]; ok {
+		env.pkg = p.Types
+	}
+	for _, pp := range spec.LemmaParams {
+		t := env.parseTypeString(pp.Type)
+		var as []*Term
+		v := c.Fresh(t, pp.Name, true, &as)
+		for _, a := range as {
+			st.assume(a)
+		}
+		env.vars[pp.Name] = SVal{V: v, T: t}
+	}
+	for _, rq := range spec.Requires {
+		t, facts := e.clauseAssume(env, rq)
+		st.assume(t)
+		st.facts = append(st.facts, facts...)
+	}
+	rc.entry = st.clone()
+	cov := &Oblig{ID: ShortKey(key) + "#cover:pre", Kind: "cover", Fn: key, Goal: c.False(), Cover: true, Props: spec.Props}
+	cov.Assumps = append([]*Term(nil), st.pc...)
+	rc.obligs = append(rc.obligs, cov)
+	for i, en := range spec.Ensures {
+		goal, facts := e.clauseGoal(env, en)
+		s3 := st.clone()
+		s3.facts = append(s3.facts, facts...)
+		e.obligeNoAssume(s3, nil, "post", clauseName(en, i), goal)
+	}
+	return
 }
